@@ -35,6 +35,7 @@ type c13Obs struct {
 	TermSesState       string `json:"termSesState,omitempty"`
 	InitiatorConnAtRet bool   `json:"initiatorConnectedAtReturn"`
 	InitiatorConnLater bool   `json:"initiatorConnectedLater"`
+	ClientKeptLost     bool   `json:"clientKeptLostConnection,omitempty"` // wiring client, the server ended the session: the Client still held the connection of that session after the release bound (it had not closed the channel on its own)
 	CliState           string `json:"cliState"`
 	SrvState           string `json:"srvState"`
 	CliRcvDone         bool   `json:"cliRcvDone"`
@@ -288,6 +289,10 @@ func judgeC13(c *c13Case, obs *c13Obs, o *Outcome) {
 		}
 	} else if obs.InitiatorConnLater {
 		o.Fail("C13/initiator-still-connected/"+key, "a server-side transport was still connected after Server.Close and the release bound")
+	}
+	// the high-level client closes the channel of a session the server has ended on its own, whether or not it gets a new one
+	if obs.ClientKeptLost {
+		o.Fail("C13/client-keeps-the-ended-session-connection/"+key, "the server ended the session (%s); the Client still held that session's connection open after the release bound, before the application closed the Client", c.Initiator)
 	}
 	// callbacks pair up
 	if obs.EstCb != obs.FinCb {
